@@ -38,6 +38,9 @@ def strat_lik(tier):
         'n': st.integers(10, 300), 'd': st.integers(1, 5), 'seed': st.integers(0, 10 ** 6), 'cond': st.sampled_from([1.0, 10.0, 100.0]),
         'far': st.sampled_from([0.0, 0.5, 2.0, 8.0]), 'penalty': st.sampled_from([0.0, 0.1, 0.5, 0.9, 1.0]),
         'glasso_penalty': st.sampled_from([0.0, 0.05, 0.3]),
+        # whitened-glasso only: graphical lasso on the standardised summaries (no published-form reference is claimed for it; it is
+        # judged by the relation 'whitening W == the same call on summaries whitened beforehand')
+        'standardise': st.sampled_from([False, False, True]),
         # many summaries and / or summaries of a small or large scale (standard and robust variants): the covariance stays
         # well conditioned but its determinant leaves the double range
         'many': st.sampled_from([0, 0, 0, 40, 60, 150]), 'scale': st.sampled_from([1.0, 1.0, 1e-3, 0.05, 1e4]),
@@ -98,12 +101,14 @@ def run_lik(case):
     if scale != 1.0:
         labels.append('scaled-summaries')
     tol = 1e-9 if d <= 5 else 1e-8
+    rel = None       # (keyword arguments without the whitening, W): the call with whitening=W must equal the call on pre-whitened summaries
     if variant == 'standard':
         fn = pm.standard_likelihood()
         ref = ref_mvn(y, xm, Sx)
     elif variant == 'whitened':
         W = _spd(d, rs, 10.0) + 0.3 * rs.randn(d, d) * (d > 1)
         fn = pm.standard_likelihood(whitening=W)
+        rel = ({}, W, 1e-9)
         Xw = X.dot(W.T)
         ref = ref_mvn(W.dot(y), Xw.mean(axis=0), np.atleast_2d(np.cov(Xw, rowvar=False)))
     elif variant in ('whitened-warton', 'whitened-glasso'):
@@ -114,6 +119,7 @@ def run_lik(case):
         if variant == 'whitened-warton':
             pen = case['penalty']
             fn = pm.standard_likelihood(shrinkage='warton', penalty=pen, whitening=W)
+            rel = (dict(shrinkage='warton', penalty=pen), W, 1e-9)
             g = 1 - pen
             Dm = np.sqrt(np.diag(Sw) + 1e-5)
             ref = ref_mvn(W.dot(y), Xw.mean(axis=0), np.outer(Dm, Dm) * (g * (Sw / np.outer(Dm, Dm)) + (1 - g) * np.eye(d)))
@@ -121,9 +127,16 @@ def run_lik(case):
         else:
             from sklearn.covariance import graphical_lasso
             pen = max(case['glasso_penalty'], 0.05)
-            fn = pm.standard_likelihood(shrinkage='glasso', penalty=pen, whitening=W)
+            sd_flag = bool(case.get('standardise'))
+            fn = pm.standard_likelihood(shrinkage='glasso', penalty=pen, whitening=W, standardise=sd_flag)
+            rel = (dict(shrinkage='glasso', penalty=pen, standardise=sd_flag), W, 1e-3)
             try:
-                ref = ref_mvn(W.dot(y), Xw.mean(axis=0), graphical_lasso(Sw, alpha=pen, max_iter=200)[0])
+                if sd_flag:
+                    graphical_lasso(np.atleast_2d(np.corrcoef(Xw, rowvar=False)), alpha=pen, max_iter=200)     # solver refusal only
+                    ref = None
+                    labels.append('glasso-standardise')
+                else:
+                    ref = ref_mvn(W.dot(y), Xw.mean(axis=0), graphical_lasso(Sw, alpha=pen, max_iter=200)[0])
             except FloatingPointError:
                 # scikit-learn's solver refuses this (too ill-conditioned) covariance: there is no reference value
                 return CaseResult(['variant=' + variant, 'glasso-solver-refused'], None)
@@ -189,7 +202,16 @@ def run_lik(case):
     gv = float(np.reshape(got, -1)[0])
     if np.size(got) != 1:
         raise Violation('C20:likelihood-shape', 'likelihood returned %r; %s' % (got, ctx))
-    if ref == -np.inf:
+    if rel is not None:
+        kw, W_, rtol_ = rel
+        with must_not_raise(P, 'evaluating the likelihood on summaries whitened beforehand; ' + ctx):
+            g2 = float(np.reshape(pm.standard_likelihood(**kw)(X.dot(W_.T), W_.dot(y)[None, :]), -1)[0])
+        if not (abs(gv - g2) <= rtol_ * (1 + abs(g2)) or (gv == g2)):
+            raise Violation('C20:whitening-is-not-whitening-the-summaries', 'log-likelihood with whitening=W is %r, the same likelihood (%r) on the summaries '
+                            'whitened beforehand (ssx W^T, W ssy) gives %r; %s' % (gv, kw, g2, ctx))
+    if ref is None:
+        pass
+    elif ref == -np.inf:
         if gv != -np.inf:
             raise Violation('C20:unbiased-psi-not-positive-definite', 'the matrix psi is not positive definite (min eigenvalue %.3g) so the unbiased density estimate is 0, '
                             'but the log-likelihood is %r; %s' % (evmin, gv, ctx))
@@ -578,7 +600,7 @@ CHECK = Check(
     parts=[Part('likelihood', run_lik, strategy=strat_lik, examples={'quick': 600, 'thorough': 32000}),
            Part('transform', run_tr, strategy=strat_tr, examples={'quick': 800, 'thorough': 32000}),
            Part('mh-chain', run_mh, strategy=strat_mh, examples={'quick': 400, 'thorough': 6400}, shards={'quick': 8, 'thorough': 16})],
-    assumptions=['standardise=True of the glasso variant and the semi-parametric likelihood are outside the statement',
+    assumptions=['standardise=True of the glasso variant has no published-form reference here (judged by the relation whitening=W == pre-whitened summaries); the semi-parametric likelihood is outside the statement',
                  'the stub likelihood replaces the synthetic likelihood in the MH part: the chain logic is judged, the likelihood values are judged in the likelihood part',
                  'acceptance decisions with |u - ratio| < 1e-7 are borderline and skipped'],
     design_ref='DESIGN.md section 4, C20',
